@@ -24,6 +24,9 @@ Definition obs_accept (size delivered : Z) (closed alive : bool) : bool :=
 Definition obs_reject (delivered : Z) (closed alive : bool) : bool :=
   (delivered =? -1) && closed && negb alive.
 
+(** The rig sends a 3-byte message ("4ok") after the probe to see whether the connection survived. *)
+Definition follow_up_size : Z := 3.
+
 (** Correspondence: the model takes the decision the implementation took, announces the limit the
     implementation announced, and (for a POST) answers with the same status after pulling the
     same number of bytes from the body. *)
@@ -31,9 +34,12 @@ Definition agree (c : lcase) : bool :=
   let '(max, dis, ann, d, t, size, (status, delivered, closed, alive, read)) := c in
   let cf := mkCfg max dis in
   let o := decide cf (dir_of d) (tr_of t) size in
+  (* the probe followed by the 3-byte follow-up, as one session of the model *)
+  let '(dl, cl) := session cf (dir_of d) (tr_of t) [size; follow_up_size] in
   (ann =? announced_max_payload cf)
-  && (if o_accept o then obs_accept size delivered closed alive
-      else obs_reject delivered closed alive)
+  && (delivered =? match dl with s :: _ => s | [] => -1 end)
+  && Bool.eqb alive (Nat.eqb (length dl) 2)
+  && Bool.eqb closed cl
   && ((status =? -1) || (status =? o_status o))
   && ((read =? -1) || (read =? o_pulled o)).
 
